@@ -89,6 +89,7 @@ class Check(AddCheck):
             for v in drop_variants(to_text(doc)):
                 yield {'ro': ro, 'msg': v, 'meta': dict(meta, cls=cls, n=3, layout='dropped-element')}
         yield from gens.merge_cases_padded()
+        yield from gens.merge_cases_special_ids()
         yield from gens.merge_cases_bad_timing_payload()
         n_hist = 100 if tier == 'quick' else 1000
         for state in history_states(rng, n_hist, 8):
@@ -137,6 +138,7 @@ class Check(AddCheck):
         # access to the tree before, compare it here
         corpus = corpus_cases(self.pid, 'add')
         cases = corpus + list(self.gen(tier, rng))
+        cases += list(gens.fuzzed_cases(cases, rng, 1500 if tier == 'quick' else 15000))      # structural neighbours (gens.mutate_doc)
         dis, vio, sigs, dist, samples, n = [], [], set(), {}, [], 0
         for i in range(0, len(cases), self.chunk):
             part = cases[i:i + self.chunk]
